@@ -5,6 +5,7 @@ import json
 from lxml import etree
 
 import core
+import real
 import xmlfmt
 import xt
 from props import c02
@@ -99,6 +100,19 @@ def run_cases(seed, lo, hi, extra):
             st.failures.append({"prop": "C08", "sig": f"{sig}/{cs}", "detail": det, "output": out[:600], **desc})
         if probs:
             continue
+        if mode != "textpairs" and idx % 3 == 0 and not cfg.get("use_replace"):
+            # C08 quantifies over formatter configurations, not over fresh objects: the same formatter used for a
+            # second diff (which meets the placeholder keys of the first one again) must still return clean markup
+            from xmldiff import main as _main, formatting as _formatting
+            st.units["formatter-reused"] = st.units.get("formatter-reused", 0) + 1
+            f2 = _formatting.XMLFormatter(**cfg)
+            try:
+                _main.diff_trees(xt.to_lxml(L), xt.to_lxml(R), diff_options=opts, formatter=f2)
+                out2 = _main.diff_trees(xt.to_lxml(L), xt.to_lxml(R), diff_options=opts, formatter=f2)
+                for sig, det in xmlfmt.check_c08(out2)[:1]:
+                    st.failures.append({"prop": "C08", "sig": f"{sig}/{cs}/formatter-reused", "detail": det, "output": out2[:600], **desc})
+            except Exception as e:  # noqa
+                st.failures.append({"prop": "C08", "sig": f"C08/raises/{real.exc_sig(e)}/{cs}/formatter-reused", **desc})
         if "diff:" in out:
             st.nontriv((desc["left"], desc["right"], desc["formatter"]))
             st.sample({**desc, "output": out[:400]}, 2)
